@@ -41,8 +41,9 @@ CURS_QUICK = ["", ".", "x/y"]
 CURS_LABEL = ["", ".", "x/y", ".x", ".github/ci", "./a", "a/.b", "..", "a.", "_", "-x", "x/./y", "a//b"]
 UNI = {"pkgs": ["", ".", "a", "b", "a/", "a/b", "a/a", "ab", "a2", "a_", "a.", "a/b/a", "b/a", "a//", "/", "//", "a/.", "x/y", "x/y/a", "x",
                 # siblings sharing a string prefix, with sub-packages of their own
-                "ab/a", "a2/b", "a_/b", "a./b", "a/b2/a", "a/ba/b", "x/y2/z", "x/yy", "b/a/b", "ba/a"],
-       "names": ["a", "b", "all", "...", "ab", "y", "a:b", "_", "a.", ".a"]}
+                "ab/a", "a2/b", "a_/b", "a./b", "a/b2/a", "a/ba/b", "x/y2/z", "x/yy", "b/a/b", "ba/a",
+                "a/b/c", "a/b/c/d", "x/y/z", "a/a/b", "b/a/a"],
+       "names": ["a", "b", "all", "...", "ab", "y", "a:b", "_", "a.", ".a", "c", "d", "z"]}
 
 
 def labels_of(uni):
@@ -109,7 +110,22 @@ def run(ctx):
         for k in range(0, 4):
             for suf in ["", ":x", ":all", ":...", "/...", "...", "/...:x", "...:x", ":", ":x:y", "/....", "/.../", "/.../a"]:
                 strings.append("//" + base + "/" * k + suf)
+    for p_ in ["a/b/c", "a/b/c/d", "x/y/z", "a/b", "a", "a/a/b", "b/a/a"]:
+        strings += ["//" + p_, "//" + p_ + ":" + p_.split("/")[-1]]
+    for n_ in ["lib..so", "v1...2", "....", "..", "a..b", ".", "a.", ".a", "-", "_", "a-b_c.d", "A9", "é", "a b", "a/b", "all", "..."]:
+        strings += [":" + n_, "//p:" + n_]
     strings = list(dict.fromkeys(strings))
+    # long family: package prefixes around buffer-size boundaries, each with its own label universe
+    long_reqs = []
+    for L in [31, 32, 33, 62, 63, 64, 65, 127, 128, 129, 255, 256, 257, 1023, 1024, 1025, 4097]:
+        for P in ["p" * L, ("ab/" * L)[:L - 1] + "c", "a/" + "b" * (L - 2)]:
+            uni = {"pkgs": [P, P + "/q", P + "2", P + "2/q", P[:-1], P[:-1] + "/q", P[:63] + "/q", P[:64] + "/q", P[:63] + "x/q", P + "/" + "q" * 70, ""],
+                   "names": ["x", "all", P.split("/")[-1][:200]]}
+            for suf in ["/...", "/...:x", ":all", ":x", "", "/...:" + P.split("/")[-1][:200]]:
+                long_reqs.append({"op": "pattern.parse", "cur": "", "s": "//" + P + suf, "uni": uni})
+            long_reqs.append({"op": "label.parse", "cur": "", "s": "//" + P})
+            long_reqs.append({"op": "label.parse", "cur": "", "s": "//" + P + ":" + "n" * L})
+            long_reqs.append({"op": "label.parse", "cur": P, "s": ":" + "n" * L})
     curs = CURS_QUICK if quick else CURS_QUICK + ["a", "a/b"]
     labs = labels_of(UNI)
     ctx.coverage["rule"] = (f"all strings of length <= {maxlen} over '{ALPHA}' plus {nrand} random strings built from label "
@@ -125,6 +141,7 @@ def run(ctx):
             for cur in CURS_LABEL:
                 if cur not in curs:
                     reqs.append({"op": "label.parse", "cur": cur, "s": s})
+    reqs += long_reqs
     # --- correspondence ----------------------------------------------------------------------
     impl_out = []
     bad = []
@@ -157,7 +174,7 @@ def run(ctx):
             if "panic" in x or "error" in x:
                 ctx.violation("parser crashed or driver error", {"kind": "impl-crash", "request": strip(r), "impl": x}, signature="parser-crash")
             continue
-        rt_reqs.append({"op": r["op"], "cur": r["cur"], "s": x["str"], **({"uni": UNI} if r["op"] == "pattern.parse" else {})})
+        rt_reqs.append({"op": r["op"], "cur": r["cur"], "s": x["str"], **({"uni": r["uni"]} if r["op"] == "pattern.parse" else {})})
         rt_src.append((r, x))
     rt_out = ctx.impl(rt_reqs) if rt_reqs else []
     for (r, x), rr, y in zip(rt_src, rt_reqs, rt_out):
@@ -179,9 +196,9 @@ def run(ctx):
                     x, y = o1, o2
                     labs_used = [(p, n) for p in u2["pkgs"] for n in u2["names"]]
                 else:
-                    labs_used = labs
+                    labs_used = labels_of(r["uni"])
             else:
-                labs_used = labs
+                labs_used = labels_of(r["uni"])
             if differs:
                 oracle_fail += 1
                 pkgpart = r["s"][2:].split(":")[0] if r["s"].startswith("//") else ""
@@ -198,16 +215,17 @@ def run(ctx):
     for r, x in zip(reqs, impl_out):
         if r["op"] != "pattern.parse" or not x.get("ok"):
             continue
-        exp = [reference_match(r["s"], p, n) for p, n in labs]
+        labs_r = labs if r["uni"] is UNI else labels_of(r["uni"])
+        exp = [reference_match(r["s"], p, n) for p, n in labs_r]
         if exp[0] is None:
             continue
         ref_checked += 1
         got = [c == "1" for c in x["m"]]
         if got != exp:
             oracle_fail += 1
-            i = [k for k in range(len(labs)) if got[k] != exp[k]][0]
+            i = [k for k in range(len(labs_r)) if got[k] != exp[k]][0]
             ctx.violation("pattern matches a label the documented algebra excludes (or misses one it includes)",
-                          {"kind": "oracle", "oracle": "reference matcher", "request": strip(r), "impl": x, "label": labs[i], "expected": exp[i]},
+                          {"kind": "oracle", "oracle": "reference matcher", "request": strip(r), "impl": x, "label": labs_r[i], "expected": exp[i]},
                           signature="pattern-match-differs-from-reference")
     # (3) relative labels resolve against the current package; shorthand //p == //p:base(p)
     by_req = {(r["op"], r["cur"], r["s"]): x for r, x in zip(reqs, impl_out)}
@@ -233,6 +251,33 @@ def run(ctx):
                     ctx.violation("shorthand //p does not parse like //p:base(p)",
                                   {"kind": "oracle", "oracle": "shorthand", "request": strip(r), "impl": x, "explicit": other},
                                   signature="shorthand-differs")
+    # (4) documented name rule: letters, digits, '_', '-', '.'; not "..."  — accepted exactly then (relative labels)
+    import re as _re
+    name_checked = 0
+    for r, x in zip(reqs, impl_out):
+        if r["op"] == "label.parse" and r["s"].startswith(":"):
+            n_ = r["s"][1:]
+            exp_ok = bool(_re.fullmatch(r"[A-Za-z0-9_.\-]+", n_)) and n_ != "..."
+            name_checked += 1
+            if bool(x.get("ok")) != exp_ok:
+                oracle_fail += 1
+                ctx.violation("target-name validation differs from the documented rule (letters, digits, '_', '-', '.'; not '...')",
+                              {"kind": "oracle", "oracle": "name rule", "request": strip(r), "impl": x, "expected_ok": exp_ok},
+                              signature="name-rule-differs")
+    # (5) pattern shorthand: //p matches like //p:base(p)
+    psh = 0
+    for r, x in zip(reqs, impl_out):
+        if r["op"] == "pattern.parse" and r["s"].startswith("//") and ":" not in r["s"] and "..." not in r["s"]:
+            other = by_req.get(("pattern.parse", r["cur"], r["s"] + ":" + r["s"][2:].split("/")[-1]))
+            if other is not None and r["s"][2:].split("/")[-1] != "":
+                psh += 1
+                if (x.get("ok"), x.get("m")) != (other.get("ok"), other.get("m")):
+                    oracle_fail += 1
+                    ctx.violation("shorthand pattern //p does not match like //p:base(p)",
+                                  {"kind": "oracle", "oracle": "pattern shorthand", "request": strip(r), "impl": x, "explicit": other},
+                                  signature="pattern-shorthand-differs")
+    ctx.coverage["oracle_name_rule"] = name_checked
+    ctx.coverage["oracle_pattern_shorthand_pairs"] = psh
     ctx.coverage["oracle_relative_labels"] = rel_checked
     ctx.coverage["oracle_shorthand_pairs"] = sh_checked
     ctx.coverage["oracle_roundtrips"] = len(rt_reqs)
